@@ -43,15 +43,15 @@ SomeAbsent == {Subs, Subs \ {"hit", "miss", "pass"}, {"recv", "fetch", "log"}, S
 (* the return(x) form; "none" falls off the end.  fetch/hit carry the      *)
 (* variants that manipulate the object lifetime.                           *)
 BehAll(s) ==
-  CASE s = "recv"    -> {"none", "lookup", "pass", "error_stmt", "error_ret", "restart_stmt", "restart_ret"}
+  CASE s = "recv"    -> {"none", "lookup", "pass", "error_stmt", "error_ret", "restart_stmt", "restart_ret", "unknown"}
     [] s = "hash"    -> {"none", "hash"}
-    [] s = "hit"     -> {"none", "deliver", "pass", "error_stmt", "error_ret", "restart_stmt", "restart_ret", "expire"}
-    [] s = "miss"    -> {"none", "fetch", "pass", "error_stmt", "error_ret", "deliver_stale"}
-    [] s = "pass"    -> {"none", "pass", "error_stmt"}
+    [] s = "hit"     -> {"none", "deliver", "pass", "error_stmt", "error_ret", "restart_stmt", "restart_ret", "expire", "unknown"}
+    [] s = "miss"    -> {"none", "fetch", "pass", "error_stmt", "error_ret", "deliver_stale", "unknown"}
+    [] s = "pass"    -> {"none", "pass", "error_stmt", "unknown"}
     [] s = "fetch"   -> {"none", "deliver", "deliver_stale", "pass", "hit_for_pass", "error_stmt", "error_ret",
-                         "restart_stmt", "restart_ret", "ttl0", "uncacheable"}
-    [] s = "error"   -> {"none", "deliver", "deliver_stale", "restart_stmt", "restart_ret"}
-    [] s = "deliver" -> {"none", "deliver", "restart_stmt", "restart_ret"}
+                         "restart_stmt", "restart_ret", "ttl0", "uncacheable", "unknown"}
+    [] s = "error"   -> {"none", "deliver", "deliver_stale", "restart_stmt", "restart_ret", "unknown"}
+    [] s = "deliver" -> {"none", "deliver", "restart_stmt", "restart_ret", "unknown"}
     [] s = "log"     -> {"none", "deliver"}
 BehFew(s) ==
   IF ~ObjVariants THEN {"none"}
@@ -75,8 +75,10 @@ FallsOff(b)  == b \in {"none", "expire", "extend", "ttl0", "uncacheable", "short
 (* miss -> deliver_stale with no stale object: the documentation does not  *)
 (* say; the requirement accepts deliver or a reported error ("STALE").     *)
 (***************************************************************************)
+\* an action name that does not exist (a misspelt `return(deliver_stal)`): no successor, the request ends in a reported error
 RSucc(s, b) ==
-  CASE s = "recv"    -> IF b \in {"none", "lookup"} THEN "LOOKUP" ELSE IF b = "pass" THEN "HASHPASS"
+  CASE b = "unknown" -> "BADACT"
+    [] s = "recv"    -> IF b \in {"none", "lookup"} THEN "LOOKUP" ELSE IF b = "pass" THEN "HASHPASS"
                         ELSE IF IsError(b) THEN "error" ELSE "R"
     [] s = "hit"     -> IF FallsOff(b) \/ b = "deliver" THEN "deliver" ELSE IF b = "pass" THEN "pass"
                         ELSE IF IsError(b) THEN "error" ELSE "R"
@@ -96,7 +98,8 @@ RSucc(s, b) ==
 (* coincide; TablesAgree below is checked by TLC on every run.             *)
 (***************************************************************************)
 MSucc(s, b) ==
-  CASE s = "recv"    -> IF b \in {"none", "lookup"} THEN "LOOKUP" ELSE IF b = "pass" THEN "HASHPASS"
+  CASE b = "unknown" -> "BADACT"      \* the default arm of every Process<Scope> switch: "returned unexpected state"
+    [] s = "recv"    -> IF b \in {"none", "lookup"} THEN "LOOKUP" ELSE IF b = "pass" THEN "HASHPASS"
                         ELSE IF IsError(b) THEN "error" ELSE "R"
     [] s = "hit"     -> IF FallsOff(b) \/ b = "deliver" THEN "deliver" ELSE IF b = "pass" THEN "pass"
                         ELSE IF IsError(b) THEN "error" ELSE "R"
@@ -236,6 +239,7 @@ StepGen(b, logged, c1, absentRecv) ==
        [] nx = "LOOKUP"   -> scope' = "hash" /\ viaPass' = FALSE /\ pc' = "run" /\ UNCHANGED restarts
        [] nx = "HASHPASS" -> scope' = "hash" /\ viaPass' = TRUE /\ pc' = "run" /\ UNCHANGED restarts
        [] nx = "STALE"    -> pc' = "err" /\ UNCHANGED <<scope, viaPass, restarts>>   \* no stale object: reported error
+       [] nx = "BADACT"   -> pc' = "err" /\ UNCHANGED <<scope, viaPass, restarts>>
        [] OTHER           -> scope' = nx /\ pc' = "run" /\ UNCHANGED <<viaPass, restarts>>
 
 Step(b) == scope \in defined /\ StepGen(b, TRUE, MechCache(scope, b), "HASHPASS")
@@ -294,6 +298,7 @@ EdgeOK(i) ==
       [] r = "AFTERHASH" -> n \in {"hit", "miss", "pass"}
       [] r = "R"         -> n = "recv"
       [] r = "STALE"     -> n = "deliver"
+      [] r = "BADACT"    -> FALSE      \* nothing runs after an action that does not exist
       [] r = "END"       -> FALSE
       [] OTHER           -> n = r
 PathOK == defined = Subs => \A i \in 1..(Len(cur.flows) - 1) : EdgeOK(i)
